@@ -33,7 +33,7 @@ type c15Family struct {
 	memo      map[ssa.Value]string
 	busy      map[ssa.Value]bool
 	nameSites map[string]map[*ssa.Function]bool
-	bind      map[*ssa.Parameter]string // helper parameters bound to the caller's arguments during a layout walk
+	bind      map[*ssa.Parameter]string    // helper parameters bound to the caller's arguments during a layout walk
 	helpers   map[*ssa.Function]*c15Family // families of same-package helpers whose calls are rendered by their result
 }
 
